@@ -184,6 +184,32 @@ def run(ctx):
                    "bytes are released without a dominating successful AEAD open over that buffer")
     ctx.floor("T1c", "release sinks in functions that open", 8, n_sink)
 
+    # (e) decoder state is not advanced before the authentication it depends on
+    n_e = 0
+    for b in bodies:
+        if b.defp in wrappers or b.root != b.defp:
+            continue
+        opens = [(blk, c, t) for (blk, c, t) in b.calls() if is_open(c) and c.method != "decrypt"]
+        if not opens:
+            continue
+        headers = {h for h, _ in b.loops()}
+        writes = []
+        for blk in b.rpo():
+            for s_ in b.stmts(blk):
+                if s_["k"] in ("assign", "setdiscr") and s_["p"][0] == 1 and any(e[0] == "field" for e in s_["p"][1]) and any(e[0] == "deref" for e in s_["p"][1]):
+                    if b.local_name(1) == "self":
+                        writes.append((blk, s_))
+        for (wb, ws) in writes:
+            n_e += 1
+            fld = [e[2] for e in ws["p"][1] if e[0] == "field"][0]
+            behind = _guarded_by_any(b, opens, wb)
+            before = [ob for (ob, oc, ot) in opens if ob in b.reach_from(wb, avoid=frozenset(headers - {wb}))]
+            ok = behind or not before
+            ctx.ob("T1e", b.defp, f"state-write-not-before-open:{fld}", loc(ws.get("sp") or b.sp), ok,
+                   f"self.{fld} is written behind a successful open / not ahead of one in the same step" if ok else
+                   f"self.{fld} is updated before the AEAD open of the same step: when that open fails the decoder has already moved on (a tampered chunk is skipped and, where the transport keeps polling, later chunks re-synchronise)")
+    ctx.floor("T1e", "decoder state writes in functions that open", 4, n_e)
+
     # (d) unauthenticated lengths
     for b in bodies:
         if (b.impl_self_def or "").endswith("vmess::aead::AEADBodyCodec") and b.method == "decode_size" and b.root == b.defp:
